@@ -75,6 +75,16 @@ Theorem C18_run_bounded :
     (k + measure (worker_blocks o lib) s' <= measure (worker_blocks o lib) s)%nat.
 Proof. exact cli_run_bounded. Qed.
 
+(* ... and from every reachable state some run ends in a terminal state: with C18_progress (only
+   terminal states are stuck) and C18_run_bounded (no infinite run) every maximal run of the model
+   ends with the process exiting *)
+Theorem C18_completes :
+  forall (o : cb_options) (io : in_options) (lib : libfn) (t : target) (n cap : nat) (s : Pool.state bytes line),
+    (0 < n)%nat -> (0 < cap)%nat ->
+    reachable (worker_blocks o lib) cap (init (producer io t) n) s ->
+    exists k s', run _ _ (worker_blocks o lib) cap k s s' /\ terminal s'.
+Proof. exact cli_completes. Qed.
+
 (* `--threads n` gives at least one worker, hence a channel of capacity >= 5 *)
 Theorem C18_threads_positive :
   forall io available, 1 <= available -> 1 <= nb_threads io available.
@@ -150,6 +160,7 @@ Print Assumptions C18_pool_exactly_once.
 Print Assumptions C18_pool_invariant.
 Print Assumptions C18_progress.
 Print Assumptions C18_run_bounded.
+Print Assumptions C18_completes.
 Print Assumptions C18_threads_positive.
 Print Assumptions C18_threads_pinned_refuted.
 Print Assumptions C18_params.
